@@ -1229,6 +1229,11 @@ class Interp:
                 return Path(np_, obj.idx)
             if obj.idx is not None:
                 raise Unsupported("second index on " + obj.key(), node)
+            if isinstance(key, (Path, Rat)) and not (isinstance(key, Rat) and self.month_affine(self.to_rat(key, node)) is not None):
+                kr = self.to_rat(key, node)
+                if not kr.is_const() and self.month_affine(kr) is None:
+                    # keyed by data (a dictionary looked up with a run-time key): an opaque element named after the key
+                    return Path(obj.parts + ("[" + canon(key) + "]",), None)
             return Path(obj.parts + ("[]",), self.index_of(key, node))
         if isinstance(obj, Opaque):
             return Opaque(obj.name + "[" + canon(key) + "]")
